@@ -79,6 +79,25 @@ type nlStream struct {
 	key                uint32
 }
 
+// acceptTimed: Accept with a bound (a listener that never answers must not wedge the harness)
+func acceptTimed(ln net.Listener, d time.Duration) (net.Conn, error, bool) {
+	type res struct {
+		c   net.Conn
+		err error
+	}
+	ch := make(chan res, 1)
+	go func() {
+		c, err := ln.Accept()
+		ch <- res{c, err}
+	}()
+	select {
+	case rr := <-ch:
+		return rr.c, rr.err, true
+	case <-time.After(d):
+		return nil, nil, false
+	}
+}
+
 func nlRun(c nlCase, r *runCtx) {
 	path := "/tmp/" + uniqueName("nl") + ".sock"
 	ln, err := Listen(path)
@@ -199,7 +218,11 @@ func nlRun(c nlCase, r *runCtx) {
 		case "accept":
 			if lnClosed {
 				t0 := time.Now()
-				conn, err := ln.Accept()
+				conn, err, returned := acceptTimed(ln, 3*time.Second)
+				if !returned {
+					r.Violf("op %d: Accept on a closed listener did not return within 3 s", oi)
+					return
+				}
 				if err == nil {
 					// a connection queued before the close may still be handed out; it must be a genuine one
 					_ = conn
@@ -484,7 +507,11 @@ func nlRun(c nlCase, r *runCtx) {
 	// after Close: Accept fails at once
 	t0 := time.Now()
 	for {
-		conn, err := ln.Accept()
+		conn, err, returned := acceptTimed(ln, 3*time.Second)
+		if !returned {
+			r.Violf("Accept on a closed listener did not return within 3 s")
+			return
+		}
 		if err != nil {
 			break
 		}
